@@ -65,6 +65,11 @@ def run(ctx: Ctx, rep: Report) -> None:
     from ..rules.optrule import rule_total
     rule_magblind(ctx, rep, gates, 6)
     rule_total(ctx, rep, gates, 3)
+    # inverse trigonometry on matrix-derived values
+    from ..rules.optrule import rule_degen
+    from ..rules.optrule import rule_nandom
+    rule_nandom(ctx, rep, ('bqskit/ir/gates/', 'bqskit/qis/'), 5)
+    rule_degen(ctx, rep, gates, 3)
     # order-sensitive folds: tensor factors by qudit, inserts by index
     from ..rules.foldorder import rule_insertord
     from ..rules.foldorder import rule_kronfold
